@@ -141,4 +141,140 @@ def main():
     return 1 if bad or len(out) != len(expect) else 0
 
 
-sys.exit(main())
+
+# ---------------------------------------------------------------------------------------------------------------------
+# Translator2T (appended): try / except / else, raising calls in loops, hoisting, closures, expression statements,
+# handler sees the state at the point of the raise, uncaught classes propagate.  Python vs `#eval`, both output styles.
+
+class Bad(Exception):
+    def __init__(self, v):
+        Exception.__init__(self)
+        self.v = v
+
+
+def chk(x):
+    if x < 0:
+        raise Bad(x)
+    return 2 * x
+
+
+def t_try_loop(xs):
+    good = []
+    bad = []
+    failed = False
+    for x in xs:
+        try:
+            y = chk(x)
+            good.append(y)
+        except Bad as e:
+            failed = True
+            bad.append(e.v)
+        else:
+            bad.append(0)
+    if failed:
+        raise Bad(len(bad))
+    return good
+
+
+def t_raise_in_loop(xs):
+    out = []
+    for x in xs:
+        out.append(chk(x - 3))
+    return out
+
+
+def t_closure(a, k):
+    def f(z):
+        return chk(z - k)
+    u = f(a)
+    try:
+        v = f(u)
+    except Bad as e:
+        return [u, e.v]
+    return [u, v]
+
+
+def t_two(a, k):
+    try:
+        chk(a)
+        chk(k - 3)
+        return [1]
+    except Bad as e:
+        return [e.v]
+
+
+def t_state(a, k):
+    s = 0
+    try:
+        s = chk(a)
+        s = s + chk(k - 4)
+    except Bad:
+        return [s]
+    return [s + 100]
+
+
+def t_uncaught(a, k):
+    try:
+        v = chk(a - k)
+    except KeyError:
+        return [-1]
+    return [v]
+
+
+RT = dict(expr=[("chk($x)", "(chk {x})", "bind"), ("$e.v", "{e}"), ("len($l)", "(Int.ofNat (List.length {l}))")],
+          stmt=[("$l.append($v)", "l", "({l} ++ [{v}])")], exc=[("Bad($v)", "{v}")],
+          catch={"Bad": "true", "KeyError": "false"})
+T_CASES = [(t_try_loop, "(xs : List Int) : Except Int (List Int)", {"xs": "xs"}),
+           (t_raise_in_loop, "(xs : List Int) : Except Int (List Int)", {"xs": "xs"}),
+           (t_closure, "(a k : Int) : Except Int (List Int)", {"a": "a", "k": "k"}),
+           (t_two, "(a k : Int) : Except Int (List Int)", {"a": "a", "k": "k"}),
+           (t_state, "(a k : Int) : Except Int (List Int)", {"a": "a", "k": "k"}),
+           (t_uncaught, "(a k : Int) : Except Int (List Int)", {"a": "a", "k": "k"})]
+
+
+def main_t():
+    import inspect
+    import re
+    text = ["import MenpoModel.Core.PyLoop", "set_option linter.unusedVariables false",
+            "def chk (x : Int) : Except Int Int := if x < 0 then .error x else .ok (2 * x)"]
+    expect = []
+    for style in (False, True):
+        for fn, sig, args in T_CASES:
+            tr = P.Translator2T(P.Rules2T(fn_style=style, **RT))
+            name = fn.__name__ + ("_fn" if style else "")
+            text.append("def %s %s :=\n%s\n" % (name, sig, tr.function(fn, args)))
+            ps = list(inspect.signature(fn).parameters)
+            combos = [(xs,) for xs in LISTS] if len(ps) == 1 else [(a, k) for a in (-2, 0, 1, 3, 5) for k in KS]
+            for c in combos:
+                try:
+                    v = ("ok", fn(*c))
+                except Bad as e:
+                    v = ("error", e.v)
+                expect.append((name, c, v))
+                a = " ".join(lean_list(x) if isinstance(x, list) else "(%d)" % x for x in c)
+                text.append("#eval %s %s" % (name, a))
+    d = tempfile.mkdtemp()
+    f = os.path.join(d, "T.lean")
+    open(f, "w").write("\n".join(text))
+    r = subprocess.run(["lake", "env", "lean", f], cwd=os.path.join(ROOT, "lean"), capture_output=True, text=True)
+    out = [l for l in r.stdout.splitlines() if l.strip()]
+    if r.returncode != 0:
+        print(r.stdout[-3000:], r.stderr[-2000:])
+        print(open(f).read()[:8000])
+        return 1
+
+    def norm(t):
+        return re.sub(r"[ ()]", "", t)
+    bad = 0
+    for (name, c, v), line in zip(expect, out):
+        want = "Except.%s %s" % (v[0], ("[" + ", ".join(str(x) for x in v[1]) + "]") if isinstance(v[1], list) else str(v[1]))
+        if norm(want) != norm(line):
+            bad += 1
+            print("DISAGREE", name, c, "python", want, "lean", line)
+    print("py2lean2 Translator2T self-test: %d evaluations, %d disagreements, %d lean output lines" % (len(expect), bad, len(out)))
+    import shutil
+    shutil.rmtree(d)
+    return 1 if bad or len(out) != len(expect) else 0
+
+
+sys.exit(main() or main_t())
